@@ -243,6 +243,44 @@ fn cli_case(cli: &str, dir: &str, idx: u64, text: &str, tts: &[TT]) -> Vec<(Stri
     out
 }
 
+/// both round trips of a large object: node table, roots, ordering identical; grounded of the re-imported object equals
+/// the definition (labels are declared in the order of `grounded`)
+pub fn scale_case(text: &str, grounded: &[u8], bridged: bool) -> Vec<(String, String)> {
+    let mut out = vec![];
+    let parser = AdfParser::default();
+    if parser.parse()(text).is_err() {
+        return vec![("parse".into(), "well-formed input rejected".into())];
+    }
+    let orig = match guard(|| if bridged { BdAdf::from_parser(&parser).hybrid_step_opt(false) } else { Adf::from_parser(&parser) }) {
+        Ok(a) => a,
+        Err(m) => return vec![("original:panic".into(), m)],
+    };
+    for (rt, f) in [("serde+fix_import", roundtrip_serde as fn(&Adf) -> Adf), ("node-list rebuild", roundtrip_dblayer as fn(&Adf) -> Adf)] {
+        match guard(|| {
+            let mut back = f(&orig);
+            let g = back.grounded();
+            (back, g)
+        }) {
+            Err(m) => out.push((format!("{}:panic", rt), m)),
+            Ok((back, g)) => {
+                if back.bdd.nodes[..orig.bdd.nodes.len().min(back.bdd.nodes.len())] != orig.bdd.nodes[..] || back.bdd.nodes.len() < orig.bdd.nodes.len() {
+                    out.push((format!("{}:renumbered", rt), format!("node table differs after the round trip ({} vs {} nodes)", back.bdd.nodes.len(), orig.bdd.nodes.len())));
+                }
+                if back.ac != orig.ac {
+                    out.push((format!("{}:roots", rt), "root handles differ".into()));
+                }
+                if conv(&g) != grounded {
+                    out.push((format!("{}:grounded", rt), format!("grounded of the re-imported object is {}, the definition gives {}", interp_str(&conv(&g)), interp_str(grounded))));
+                }
+                if let Err(e) = check_structure(&back.bdd.nodes) {
+                    out.push((format!("{}:store-not-canonical", rt), e));
+                }
+            }
+        }
+    }
+    out
+}
+
 fn decode_seq(mut k: u64, len: usize) -> Vec<usize> {
     let mut s = vec![];
     for _ in 0..len {
@@ -294,6 +332,50 @@ pub fn run_c14(run: &Run) {
             run.add_counts(st.0, st.1, st.1, st.2);
         }
     }
+    // objects at scale: ring / sparse ADFs and a bridged object with a 2^17-node diagram; both round trips must
+    // reproduce the node table and the grounded interpretation of the definition
+    {
+        let mut items: Vec<(String, String, Vec<u8>, bool)> = vec![]; // name, text, grounded (declaration order), bridged
+        for k in 0..(if quick { 12u64 } else { 120 }) {
+            let l = crate::mid::sparse(run.seed * 1000 + k);
+            items.push((format!("sparse #{}", k), l.text(None, ("\n", "", "")), l.grounded(), k % 2 == 1));
+        }
+        for k in 0..(if quick { 64u64 } else { 640 }) {
+            let l = crate::mid::ring(7, (k * 7919 + run.seed) % crate::mid::ring_size(7));
+            items.push((format!("ring(7) #{}", k), l.text(None, ("", "", "")), l.grounded(), k % 2 == 0));
+        }
+        {
+            let m = 16usize;
+            let mut labels: Vec<String> = (0..m).map(|i| format!("x{}", i)).collect();
+            labels.extend((0..m).map(|i| format!("y{}", i)));
+            labels.push("z".into());
+            let mut conds: Vec<Fm> = (0..2 * m).map(Fm::Atom).collect();
+            let mut f = Fm::bin(0, Fm::Atom(0), Fm::Atom(m));
+            for i in 1..m {
+                f = Fm::bin(1, f, Fm::bin(0, Fm::Atom(i), Fm::Atom(m + i)));
+            }
+            conds.push(f);
+            let l = crate::large::LargeAdf { labels: labels.clone(), written: labels, conds, shape: "big" };
+            items.push(("OR of 16 products (2^17 nodes), bridged".into(), l.text(None, ("", "", "")), vec![U; 2 * m + 1], true));
+        }
+        let res = run.par_family(
+            &format!("objects at scale: {} (sparse 70-270 statements, ring(7), a 2^17-node bridged diagram), both round trips", items.len()),
+            items.len() as u64,
+            || 0u64,
+            |st, k| {
+                let (name, text, g, bridged) = &items[k as usize];
+                *st += 2;
+                run.heartbeat();
+                for (kind, msg) in scale_case(text, g, *bridged) {
+                    run.violation(&kind, format!("{} on {}", msg, name), json!({"type": "persist-scale", "text": text, "grounded": g, "bridged": bridged}));
+                }
+            },
+            &|k| json!({"type": "persist-scale", "name": items[k as usize].0}),
+        );
+        for st in res {
+            run.add_counts(st / 2, st, st, st);
+        }
+    }
     run.sample(json!({"type": "persist", "text": "s(a).s(b).ac(a,neg(b)).ac(b,neg(a)).", "bridged": true, "calls": [13, 1]}));
     // CLI
     let cli = cli_path();
@@ -325,6 +407,10 @@ pub fn run_c14(run: &Run) {
 pub fn replay(c: &Value) -> Vec<(String, String)> {
     let tts: Vec<TT> = c["tts"].as_array().map(|a| a.iter().map(|x| x.as_u64().unwrap_or(0) as TT).collect()).unwrap_or_default();
     let text = c["text"].as_str().unwrap_or("");
+    if c["type"] == "persist-scale" {
+        let g: Vec<u8> = c["grounded"].as_array().map(|a| a.iter().map(|x| x.as_u64().unwrap_or(2) as u8).collect()).unwrap_or_default();
+        return scale_case(text, &g, c["bridged"].as_bool().unwrap_or(false));
+    }
     if c["type"] == "persist-cli" {
         let tmp = TmpDir::new("c14r");
         return cli_case(&cli_path(), &tmp.0, 0, text, &tts);
